@@ -14,6 +14,7 @@ import os
 import re
 
 import lib_layout as L
+import lib_syntax_measure  # C17's builder: the clause for rich.syntax.Syntax, evaluated directly on rich
 from core import enc_str
 # CODE VARIANT FLAGS: none of its own — shared with C01 (see harness/props/c01.py, which follows props/c08.py, c02.py, c07.py); current
 # value "0,00000000,0000000" = frames variant, text / wrap flags, table flags, all repaired (1 = rich 9.10.0 as found)
@@ -205,7 +206,9 @@ def run(ctx):
         ctx.flush()
         account(ctx, list(pool.imap(text_job, tjobs, chunksize=64)))
     ctx.flush()
+    lib_syntax_measure.run(ctx, 0.6 if quick else 6.0)  # Syntax.__rich_measure__ (last, so that the seeded trees above stay as they were)
     ctx.rule = (
+        lib_syntax_measure.RULE +
         "the C01 corner trees x available widths 0..40,60,100, then seeded random renderable trees (generator of C01, depth <= 4, all options, "
         "plus __rich__ casts and objects without __rich_measure__ at the root) x available widths 0..60 (dense for small trees) and one in 61..200 "
         "x console widths {12,40,80,200}; renderings at every reported maximum / minimum; random texts (words over ASCII, CJK, emoji, combining and "
